@@ -391,14 +391,18 @@ PROPS["C17"] = dict(
     technique="end-to-end monitor: RemoteClient reconstruction (sequential and parallel writers, cache off / cold / warm / tiny) against an in-process HTTP range server serving xorbs the harness serialized; output compared with the known concatenation",
     rule=("case = 1..6 xorbs of unique random chunks x plan of 1..60 terms (repeated xorbs, fetch ranges equal to or wider than terms, several fetch ranges per xorb behind distinct urls or one url per xorb, shuffled) "
           "x ~8 byte ranges (whole, single byte, random, starting/ending at and next to term boundaries) x {seq, par} writer x cache {off, large, small with evictions} x {cold, warm}; seeded per-request delays permute "
-          "completion order; evaluation = one plan (all its runs); non-trivial = >=2 terms; distinct = (terms / fetch-range buckets, xorbs, url class, cache mode, repeated, wider)"),
+          "completion order; with the cache off each plan is also reconstructed onto a file under a file-size limit below its length (the crossing write is cut short by the kernel): only an error is acceptable; "
+          "one plan larger than 4 GiB (257+ repeated 16 MiB terms, output /dev/null) checks the reported length of both writers; evaluation = one plan (all its runs); non-trivial = >=2 terms; distinct = (terms / fetch-range buckets, xorbs, url class, cache mode, repeated, wider)"),
     assumptions=["plain HTTP on loopback; real CAS server quirks and TLS are not covered", "the reconstruction API answer for a byte range (covering terms + offset into the first) is computed by the harness"],
     jobs=[
         Job("recon", engine="recon", workers=(16, 16), cases=(22, 2500), time_s=(45, 800), **FULL),
+        # one plan larger than 4 GiB (257+ whole-xorb terms of 16 MiB, disk cache on, output /dev/null): reported length, both writers
+        Job("recon-huge", engine="recon", workers=(1, 3), cases=(1, 1), time_s=(120, 300), args={"huge-plan": True}, **FULL),
     ],
     gates=dict(evaluations=(300, 20000), distinct=(120, 500),
                counters={"reconstructions_compared": (5000, 500000), "plans_with_one_url_per_xorb": (30, 3000), "plans_with_repeated_xorbs": (150, 15000), "plans_with_fetch_ranges_wider_than_terms": (150, 15000),
-                         "cache_small": (60, 6000), "cache_large": (60, 6000), "cache_off": (60, 6000), "warm_runs_served_without_network": (1000, 100000), "http_requests_served": (8000, 800000)}),
+                         "cache_small": (60, 6000), "cache_large": (60, 6000), "cache_off": (60, 6000), "warm_runs_served_without_network": (1000, 100000), "http_requests_served": (8000, 800000),
+                         "short_write_runs_rejected": (60, 6000), "plans_larger_than_4gib_length_correct": (2, 6)}),
 )
 
 PROPS["C19"] = dict(
